@@ -5,7 +5,7 @@
    its blocks are released agree (C01_geometry_realsize).  'allocated = reachable + reserved at every quiescent point'
    and 'create then delete restores the free count' are judged per explored history by the extracted decoder. *)
 From Coq Require Import ZArith List Bool Lia.
-From ADF Require Import CPrelude Generated.Layout Generated.Leaf Model.Bitmap Proofs.BitmapP Proofs.ConserveP Proofs.GeometryP Model.FileMap Proofs.FileMapP.
+From ADF Require Import CPrelude Generated.Layout Generated.Leaf Model.Bitmap Proofs.BitmapP Proofs.ConserveP Proofs.AllocCountP Proofs.GeometryP Model.FileMap Proofs.FileMapP.
 From Coq Require Import Permutation.
 From ADF Require Model.FileIO Proofs.FileIOP.
 Import ListNotations.
@@ -71,7 +71,14 @@ Proof.
   - intros x Hx. split; [apply H; exact Hx|]. exact (taken_are_used b last l H x Hx).
 Qed.
 
+(* the allocator itself: a granted adfGetFreeBlocks(want) lowers adfCountFreeBlocks by exactly want (mirror of the scan, tied by the allocator
+   correspondence; bit operations regenerated) *)
+Theorem C05_alloc_lowers_count_by_want : forall b root last want l b', 2 < root <= last ->
+  get_free_blocks b root last want = Some (l, b') -> count_free b' last = count_free b last - Z.of_nat want.
+Proof. exact alloc_count. Qed.
+
 Print Assumptions C05_count.
+Print Assumptions C05_alloc_lowers_count_by_want.
 Print Assumptions C05_count_after_taking.
 Print Assumptions C05_count_after_releasing.
 Print Assumptions C05_take_then_release_restores.
